@@ -3,6 +3,7 @@ DESIGN.md section 4, C09."""
 import re
 from .common import *
 from cpv.ranges import type_range, cast_chain, apply_chain
+from cpv.ceval import Evaluator, Unknown
 
 INT_TAGS = ["int", "unsigned int", "long int", "unsigned long int", "long long int", "unsigned long long int"]
 OTHER_TAGS = ["bool", "double", "const char*", "void*", "const void*", "void (*)()", "const unsigned char*"]
@@ -124,7 +125,7 @@ def check(ctx, run):
     run.not_decided.append("string content comparison (SimpleString operator==, C13) and MemCmp semantics over all byte strings")
     run.rule("R1", "PARTITION: every ordered pair of integer tags selects a comparing branch (no pair falls through to `different type => false`)", floor=36, exhaustive=True)
     run.rule("R2", "TABLE: the union member read for a side is the member its tag was stored in (tag table extracted from the setValue overloads)", floor=36)
-    run.rule("R3", "RANGE: in the selected comparison every explicit and implicit cast is value-preserving on the member's range narrowed by the sign guards, and a failing guard implies inequality", floor=36, exhaustive=True)
+    run.rule("R3", "the comparison selected for a tag pair, folded (helpers inlined) over the boundary values of both types and their 2^32/2^64 aliases, is true exactly when the two stored integers are mathematically equal", floor=36, exhaustive=True)
     run.rule("R4", "getters: for every (getter, stored tag) the value is returned through value-preserving conversions of the tag's own member, or the path passes STRCMP_EQUAL(own tag, type) which fails the test", floor=36, exhaustive=True)
     run.rule("R5", "non-integer kinds: different tags never compare equal; bool/pointer/function pointer compare their own members; double passes (this, other, this tolerance) to doubles_equal; buffers compare size before MemCmp with that size", floor=40)
 
@@ -154,6 +155,23 @@ def check(ctx, run):
         return None, r
 
     # ---------------- R1/R2/R3 -------------------------------------------------
+    def boundary(lo, hi):
+        vs = set()
+        for base in (0, 1 << 7, 1 << 8, 1 << 15, 1 << 16, 1 << 31, 1 << 32, 1 << 63, 1 << 64):
+            for d in (-2, -1, 0, 1, 2, 5):
+                vs |= {base + d, -base + d}
+        vs |= {lo, lo + 1, hi, hi - 1, 42, -42}
+        return sorted(v for v in vs if lo <= v <= hi)
+
+    def aliases(v, lo, hi):
+        """values of the other operand's type that a lossy conversion would confuse with v"""
+        out = set()
+        for k in (32, 64):
+            for m in (-2, -1, 1, 2):
+                out.add(v + m * (1 << k))
+            out.add(v & ((1 << k) - 1))
+            out.add((v & ((1 << k) - 1)) - (1 << k))
+        return {x for x in out if lo <= x <= hi}
     for t1 in INT_TAGS:
         for t2 in INT_TAGS:
             inst = "%s vs %s" % (t1, t2)
@@ -163,62 +181,47 @@ def check(ctx, run):
                 continue
             E = eq.node(rets[0].get("value"))
             txt = render(eq, E)
-            cj = conjuncts(eq, E)
-            cmps = [c for c in cj if c is not None and c["k"] == "BinaryOperator" and c.get("op") == "=="]
-            guards = [c for c in cj if c is not None and c["k"] == "BinaryOperator" and c.get("op") == ">="]
-            others = [c for c in cj if c not in cmps and c not in guards]
-            if const_value(eq, E) == 0 or (len(cmps) != 1):
+            m1, c1 = tab[t1][0], tab[t1][1]
+            m2, c2 = tab[t2][0], tab[t2][1]
+            r1, r2 = type_range(prog, c1), type_range(prog, c2)
+            S1 = boundary(*r1)
+            foreign, wrong, never_true = None, None, True
+            ncmp = 0
+            for v1 in S1:
+                S2 = sorted(set(boundary(*r2)) | aliases(v1, *r2) | ({v1} if r2[0] <= v1 <= r2[1] else set()))
+                for v2 in S2:
+                    ev = Evaluator(prog, eq, env={"value_." + m1: v1, "%s.value_.%s" % (pname, m2): v2})
+                    try:
+                        got = ev.ev(E)
+                    except Unknown as u:
+                        foreign = foreign or str(u)
+                        continue
+                    ncmp += 1
+                    if got:
+                        never_true = False
+                    if bool(got) != (v1 == v2) and wrong is None:
+                        wrong = (v1, v2, bool(got))
+                if foreign:
+                    break
+            if foreign:
+                fm = re.search(r"value_\.(\w+)", foreign)
+                if fm and not const_value(eq, E) == 0:
+                    run.ob("R1", inst, eq.site, True, witness=txt)
+                    run.ob("R2", inst, eq.site, False, witness={"expr": txt, "members": {"this": m1, "other": m2}},
+                           what="the comparison reads %s; the tags store into value_.%s and %s.value_.%s" % (foreign, m1, pname, m2))
+                else:
+                    run.broke("C09: the comparison selected for %s cannot be folded: %s (%s)" % (inst, foreign, txt))
+                continue
+            if never_true:
                 run.ob("R1", inst, eq.site, False, witness=txt, what="no comparison of the two stored integers is selected for this type pair (falls through to %s)" % txt)
                 continue
             run.ob("R1", inst, eq.site, True, witness=txt)
-            c = cmps[0]
-            L, Lc = cast_chain(eq, eq.node(c["lhs"]))
-            R, Rc = cast_chain(eq, eq.node(c["rhs"]))
-            sl, ml = side_of(L)
-            sr, mr = side_of(R)
-            ok2 = {sl, sr} == {"this", "other"}
-            want = {"this": tab[t1][0], "other": tab[t2][0]}
-            if ok2:
-                ok2 = (ml == want[sl]) and (mr == want[sr])
-            run.ob("R2", inst, eq.site, ok2, witness={"reads": [render(eq, L), render(eq, R)], "members": want},
-                   what="" if ok2 else "the comparison reads %s and %s; the tags store into value_.%s and %s.value_.%s" % (render(eq, L), render(eq, R), want["this"], pname, want["other"]))
-            if not ok2:
-                continue
-            # ranges
-            ctype = {"this": tab[t1][1], "other": tab[t2][1]}
-            rng = {s: type_range(prog, ctype[s]) for s in ("this", "other")}
-            gtxt = []
-            bad = None
-            guarded = set()
-            for g in guards:
-                gl, _ = cast_chain(eq, eq.node(g["lhs"]))
-                s, m = side_of(gl)
-                z = const_value(eq, eq.node(g["rhs"]))
-                if s is None or m != want[s] or z != 0:
-                    bad = "sign guard %s does not test the member that is compared (value_.%s / %s.value_.%s)" % (render(eq, g), want["this"], pname, want["other"])
-                    continue
-                rng[s] = (max(rng[s][0], 0), rng[s][1])
-                guarded.add(s)
-                gtxt.append(render(eq, g))
-            if others:
-                bad = "unrecognised conjunct %s" % render(eq, others[0])
-            why = bad or ""
-            if not bad:
-                for s, chain, leaf in ((sl, Lc, L), (sr, Rc, R)):
-                    ok, after, lossy = apply_chain(prog, rng[s], chain)
-                    if not ok:
-                        why = "cast %s -> %s of %s is not value-preserving on [%d, %d]: different integers can compare equal" % (lossy[1], lossy[2], render(eq, leaf), rng[s][0], rng[s][1])
-                        break
-            if not why:
-                # a failing guard must imply inequality: the other operand cannot be negative
-                for s in guarded:
-                    o = "other" if s == "this" else "this"
-                    full = type_range(prog, ctype[o])
-                    if o in guarded:
-                        continue
-                    if full[0] < 0:
-                        why = "guard on the %s side returns false for negative values although the other operand (%s) can be negative too" % (s, ctype[o])
-            run.ob("R3", inst, eq.site, not why, witness={"expr": txt, "guards": gtxt, "ranges": {k: list(v) for k, v in rng.items()}}, what=why)
+            run.ob("R2", inst, eq.site, True, witness={"expr": txt, "members": {"this": m1, "other": m2}})
+            why = ""
+            if wrong:
+                v1, v2, g = wrong
+                why = "stored %s %d and %s %d compare %s: a conversion on the way is not value-preserving (or a sign guard is missing / misplaced): different integers can compare equal" % (t1, v1, t2, v2, "equal" if g else "different")
+            run.ob("R3", inst, eq.site, not why, witness={"expr": txt, "pairs_folded": ncmp}, what=why)
 
     # ---------------- R5 ---------------------------------------------------------
     alltags = INT_TAGS + OTHER_TAGS + ["MyType"]
@@ -237,16 +240,16 @@ def check(ctx, run):
             "const void*": "(value_.constPointerValue_ == %s.value_.constPointerValue_)", "void (*)()": "(value_.functionPointerValue_ == %s.value_.functionPointerValue_)"}
     for t, exp in same.items():
         rets = returns_for(t, t)
-        got = [render(eq, eq.node(r.get("value")), keep_explicit_casts=False) for r in rets if r is not None]
-        alt = exp.replace("value_.%s" % tab[t][0], "X")
-        ok = got == [exp % pname]
+        got = [rx(eq, eq.node(r.get("value"))) for r in rets if r is not None]
+        a_, b_ = (exp % pname)[1:-1].split(" == ")
+        ok = got in ([exp % pname], ["(%s == %s)" % (b_, a_)])
         run.ob("R5", "%s compares its own member by identity" % t, eq.site, ok, witness=got)
     rets = returns_for("const char*", "const char*")
-    got = [render(eq, eq.node(r.get("value")), keep_explicit_casts=False) for r in rets if r is not None]
-    ok = got == ["(SimpleString(value_.stringValue_) == SimpleString(%s.value_.stringValue_))" % pname]
+    got = [rx(eq, eq.node(r.get("value"))) for r in rets if r is not None]
+    ok = got in (["(SimpleString(value_.stringValue_) == SimpleString(%s.value_.stringValue_))" % pname], ["(SimpleString(%s.value_.stringValue_) == SimpleString(value_.stringValue_))" % pname])
     run.ob("R5", "strings compare by content", eq.site, ok, witness=got)
     rets = returns_for("double", "double")
-    got = [render(eq, eq.node(r.get("value"))) for r in rets if r is not None]
+    got = [rx(eq, eq.node(r.get("value"))) for r in rets if r is not None]
     ok = got == ["doubles_equal(value_.doubleValue_.value, %s.value_.doubleValue_.value, value_.doubleValue_.tolerance)" % pname]
     run.ob("R5", "doubles: (this value, other value, THIS tolerance) -> doubles_equal (NaN/Inf classes decided in C03.R2)", eq.site, ok, witness=got,
            what="" if ok else "the expectation's own tolerance is not what reaches doubles_equal")
@@ -256,15 +259,16 @@ def check(ctx, run):
     okb = True
     wit = []
     for p in paths:
-        val = p.val()
-        sz = [v for k, v in val.items() if "size_" in k]
-        r = render(eq, eq.node(p.ret.get("value"))) if p.ret is not None else None
+        val = origin_val(eq, p)
+        sz = [v for k, v in val.items() if k in ("(size_ == %s.size_)" % pname, "(%s.size_ == size_)" % pname)]
+        r = rx(eq, eq.node(p.ret.get("value"))) if p.ret is not None else None
         wit.append({"cond": p.describe(eq), "returns": r})
         # atom key is "(p.size_ == size_)" with polarity
         if sz == [False]:
             okb = okb and const_value(eq, eq.node(p.ret.get("value"))) == 0
         elif sz == [True]:
-            okb = okb and r == "(SimpleString::MemCmp(value_.memoryBufferValue_, %s.value_.memoryBufferValue_, size_) == 0)" % pname
+            okb = okb and r in ("(SimpleString::MemCmp(value_.memoryBufferValue_, %s.value_.memoryBufferValue_, size_) == 0)" % pname,
+                                "(SimpleString::MemCmp(value_.memoryBufferValue_, %s.value_.memoryBufferValue_, %s.size_) == 0)" % (pname, pname))
         else:
             okb = False
     run.ob("R5", "buffers: sizes compared first, then MemCmp over that size", eq.site, okb and len(paths) == 2, witness=wit)
